@@ -4,7 +4,8 @@
    Model (otto's cloner with its deviations) and Spec (a copy is an
    isomorphic, disjoint heap; it answers every script like a replica) *)
 From Coq Require Import ZArith Bool List.
-From Otto Require Import Common.Corr C17.Model C17.Spec.
+From Otto Require Import Common.Corr.
+From Otto Require Export C17.Model C17.Spec.
 Import ListNotations.
 Open Scope Z_scope.
 
